@@ -179,6 +179,34 @@ Proof.
   conj; vm_compute; reflexivity.
 Qed.
 
+(* ---- the keep-set must be the UNION of the bridge's preserved set and the fragment recount ---------------------- *)
+(* variant of emptyTrash in which the recount REPLACES the preserved set whenever a trashed path has a fragment *)
+Definition keep_overwrite (s : state) : list string :=
+  if existsb (fun r => has_char "#"%char (snd r)) (trashed_recs s) then slow_keep s else preserved s.
+Definition deletes_overwrite (s : state) (p : string) : bool :=
+  negb (memS (artifact_of p) (keep_overwrite s)) && negb (is_abs p).
+Fixpoint delete_all_overwrite (s : state) (rows : list (N * string)) (f : list (lkey * N)) : list (lkey * N) :=
+  match rows with
+  | [] => f
+  | r :: rest => delete_all_overwrite s rest (if deletes_overwrite s (snd r) then fdel f (loc (snd r)) else f)
+  end.
+
+(* a file shared by datasets 1 and 2 and a zip with members 3 and 4; ONE trash holding 1 and 3 *)
+Definition mixed_state : state :=
+  do_trash (run st0 [Ingest Copy [1%N; 2%N] (fmt "r1") ".yaml" stage0; IngestZip [(3%N, "m1"); (4%N, "m2")] "zips/ab/z.zip" 7])
+           [1%N; 3%N].
+Definition shared_l : lkey := ["r1"; "dtD"; "dtD_Cam_det0_r1.yaml"].
+
+(* with the overwrite the shared file goes although dataset 2 is still stored; the code as it is (union) keeps it *)
+Lemma keep_overwrite_refuted_p :
+  sharing_visible mixed_state = true
+  /\ fget (fs mixed_state) shared_l = Some 1%N
+  /\ fget (delete_all_overwrite mixed_state (trashed_recs mixed_state) (fs mixed_state)) shared_l = None
+  /\ referenced (empty_trash mixed_state) shared_l = true
+  /\ fget (fs (empty_trash mixed_state)) shared_l = Some 1%N
+  /\ fget (fs (empty_trash mixed_state)) ["zips"; "ab"; "z.zip"] = Some 7%N.
+Proof. conj; vm_compute; reflexivity. Qed.
+
 (* ---- names without "%" : decoding is the identity, the location is the normalised text ---------------------- *)
 Definition no_pct (s : string) : bool := negb (has_char "%"%char s).
 
